@@ -280,4 +280,29 @@ def opStats (args impl : List String) : Verdict :=
       | _, _ => if answers.isEmpty then .ok ["stats:load-failed"] else .fail "answers after a failed load"
   | _, _ => .badCase "stats"
 
+/-- one caller buffer / one allocator, several trajectories one after the other: every box is judged on its own bytes -/
+def opStatsSeq (args impl : List String) : Verdict :=
+  if args.length ≠ impl.length then .fail s!"answer count: {args.length} files, {impl.length} answers" else
+  let rec go (l : List (String × String)) (i : Nat) (tags : List String) : Verdict :=
+    match l with
+    | [] => .ok tags
+    | (hx, a) :: more =>
+      match hexToBytes hx with
+      | none => .badCase "statsseq: hex"
+      | some data =>
+        match Sb.Load.load .traj false data, Sb.Load.load .traj true data with
+        | .ok (b, _), .ok _ =>
+          match segmentsOf b with
+          | none => .fail "statsseq: model cannot decode the header of a trajectory the loader accepted"
+          | some (hd, ss) =>
+            match a.splitOn "," with
+            | rcm :: rcf :: rest =>
+              if rcm ≠ "0" ∨ rcf ≠ "0" then .fail s!"file {i}: load rc {rcm},{rcf}, model accepts" else
+              match checkBox (segxs ss hd.start 0) (",".intercalate rest) with
+              | .ok t => go more (i + 1) (tags ++ t)
+              | .error m => .fail s!"file {i} of the sequence: {m}"
+            | _ => .fail s!"file {i}: answer {a}"
+        | _, _ => .badCase "statsseq: a file the model rejects"
+  go (args.zip impl) 0 [s!"statsseq:n{args.length}"]
+
 end Sb.Corr
